@@ -68,6 +68,7 @@ ARG_CHECKED = {
 }
 
 MUTANTS = [
+    {"name": "blocking-timeout-as-deadline", "file": "src/proxy/executor.rs", "old": "        let timeout = match Self::get_blocking_command_timeout(&cmd_ctx) {\n            Ok(timeout) => timeout,", "new": "        let timeout = match Self::get_blocking_command_timeout(&cmd_ctx) {\n            Ok(timeout) => {\n                let _deadline = std::time::Instant::now() + std::time::Duration::from_secs(timeout);\n                timeout\n            }", "expect": "C16.D3:time-arith"},
     {"name": "keyless-blpop-accepted", "file": "src/proxy/executor.rs", "old": "            (DataCmdType::Blpop, Some(len)) if len > 2 => Ok(len),", "new": "            (DataCmdType::Blpop, Some(len)) if len >= 2 => Ok(len),", "expect": "C16.D5:arity:Blpop:len=2"},
     {"name": "slowlog-truncate-mid-char", "file": "src/proxy/slowlog.rs", "old": "                s.truncate(end);", "new": "                let _ = end;\n                s.truncate(MAX_ELEMENT_LENGTH);", "expect": "C16.D4"},
     {"name": "missing-key-expect", "file": "src/proxy/executor.rs", "after": "async fn handle_multi_int_cmd(", "old": "            let key = match cmd_ctx.get_cmd().get_command_element(i) {\n                Some(key) => key,\n                None => break,\n            };", "new": "            if i >= arg_len {\n                break;\n            }\n            let key = cmd_ctx.get_cmd().get_command_element(i + 1).expect(\"key\");", "expect": "C16.D4"},
@@ -229,6 +230,20 @@ def _taint(ctx):
                     ctx.holds("C16.D3", key, site(b, bb), "vetted: " + VETTED[key])
                 else:
                     ctx.violation("C16.D3", key, site(b, bb), "%s is sized by an integer parsed from client input with no upper bound: a small request can demand an arbitrarily large allocation (capacity overflow panic or allocation failure abort)" % c)
+        # time arithmetic that panics on overflow: Instant / SystemTime +- Duration, Duration * n, with an operand that
+        # is an integer parsed from the input (a timeout argument near u64::MAX)
+        for bb, t in b.calls():
+            d = callee_decl(t) or callee_of(t) or ""
+            atys = t.get("atys") or []
+            timey = any(("std::time::Instant" in ty or "std::time::SystemTime" in ty or "tokio::time::Instant" in ty) for ty in atys[:1]) and d.rsplit("::", 1)[-1] in ("add", "sub", "add_assign", "sub_assign")
+            durmul = any("std::time::Duration" in ty for ty in atys[:1]) and d.rsplit("::", 1)[-1] in ("mul", "mul_assign", "add", "add_assign")
+            if (timey or durmul) and any(T.tainted(b, a) for a in t["args"]):
+                key = "time-arith:%s" % root
+                if key in seen:
+                    continue
+                seen.add(key); found += 1
+                ctx.analysed(b)
+                ctx.violation("C16.D3", key, site(b, bb), "%s is applied to a duration derived from an integer parsed from client input with no upper bound: `Instant + Duration` / `Duration * n` panic on overflow (also in release builds), so an extreme timeout argument kills the session task" % d)
         for bb, i, s in b.assigns():
             rv = s["rv"]
             is_range = rv["k"] == "agg" and rv.get("ak") == "adt" and norm(rv["adt"]) in ("std::ops::Range", "std::ops::RangeInclusive")
